@@ -84,7 +84,7 @@ impl Dev {
     pub fn pos(&self) -> u64 {
         self.pos
     }
-    pub fn bytes(&self) -> Vec<u8> {
+    pub fn snapshot(&self) -> Vec<u8> {
         self.st.borrow().data.clone()
     }
     pub fn with<R>(&self, f: impl FnOnce(&mut DevState) -> R) -> R {
